@@ -121,6 +121,7 @@ CHECKS = {
               "lookup table; C git) x 13 continuation steps that leave the files stale (new commit, new pack, repack, pack-loose, gc, deleted / moved / re-tagged refs with and without gc) x 30 ordered foreign-file pairs, on a freshly opened Repo and on the long-lived "
               "Repo that wrote or cached the data; ~330 queries per state (getitem, contains, get_raw, iteration, parents, can_fast_forward, merge base, walks, find_shallow, get_depth, graph walker, MissingObjectFinder, reachable commits/objects, refs.as_dict, "
               "get_peeled) must equal the answers of the plain run; stale or foreign files may be rejected with an ordinary error but never answer differently. Every truncation / byte substitution of each file is additionally run in a sandbox (informational: bit rot is outside the statement)."),
+        round2="Round 4: a per-query CPU-time watchdog (a query that burns > 20 s of CPU - e.g. an ancestry walk over a parent cycle created by a wrong commit-graph - is the answer 'does not terminate', which differs from the plain run).",
         note="Trusted: the plain reference run (loose objects, loose refs) is itself validated against a trivial model (refs dict, explicit DAG, object set) on every history and step; git 2.39.5 as second writer. A vacuity guard requires every written file to be loaded by a fresh Repo.",
     ),
     "C15": dict(
@@ -138,6 +139,7 @@ CHECKS = {
               "and must match the model in outcome and in as_dict/keys/symrefs/membership/reads; thorough: git for-each-ref / symbolic-ref agree on every distinct files state. "
               "Names of every length 12..44 (thorough ..140) through create/update/symref/delete/re-create on all backends (reftable record-header boundaries), 135 consecutive updates, and loop-free symref chains of length 1..8 compared across backends and with git rev-parse. "
               "check_ref_format is compared with an independent transcription of git-check-ref-format(1) and the git binary on all ~90k strings <=4 over 17 characters plus token strings."),
+        round2='Round 4: peeled values - every history of <=4 (thorough <=5) steps over 12 operations (point a tag ref at a commit / tag / tag of a tag, move a branch, delete, pack_refs(all) / pack_refs(tags only), re-open) on a real repository; as_dict, Repo.get_peeled, refs.get_peeled through the live and a fresh Repo and git show-ref -d against the model.',
         note="Trusted: the map model in props/C16.py (for colliding names with a failing condition both 'refused' and False are accepted), refmodels/refname.py (cross-checked against git), git 2.39.5.",
     ),
     "C10": dict(
@@ -171,6 +173,7 @@ CHECKS = {
         text=("Trees built from raw bytes over 21 adversarial names x 17 leaf kinds (odd modes, gitlinks, ten symlink targets) x directory nesting, four protectNTFS/HFS settings, through clone, checkout (plain/forced/paths), switch, reset hard/mixed/soft, "
               "reset_index, stash push/pop, apply_patch, am, restore: every tree once through every entry point, plus BFS over sequences (depth 2-3) that re-use a name with a different kind and continue after failed checkouts. "
               "Snapshot of the sandbox minus the work tree and of .git minus a bookkeeping allow-list identical before/after every transition; no unsafe path materialised (independent model cross-checked against git update-index)."),
+        round2="Round 4: 'mirror' kinds in the sequence families (an executable file whose bytes equal the canary file an earlier symlink at the same path points at, the canary being exactly as long as the link text - the coincidence a same-size/same-bytes shortcut needs to chmod through the link) and copy-to patches in the quick sequence family.",
         note="Trusted: engines/refmodels/pathsafety.py (cross-checked against git on 248 paths per run); transitions run in forked children that drop privileges; Linux tmpfs path semantics only.",
     ),
     "C18": dict(
@@ -178,7 +181,8 @@ CHECKS = {
         technique="exhaustive round-trip and branch-switch enumeration over trees, BFS over work-tree/index edit sequences with a three-dict model; git status / git write-tree as second oracle on every distinct state",
         text=("Every tree of <=2 (thorough <=3) entries over 9 names (incl. non-UTF-8, quoting) x 8 kinds checked out two ways, re-staged and committed (same tree id, clean status); all ordered pairs inside slot universes for every kind transition "
               "file/symlink/dir/absent; BFS to depth 2 (3) over 14 edit/stage/unstage operations from 8 start trees with status judged in both untracked modes through a live and a fresh Repo against the model and C git. Racy-git owned by a virtual mtime clock."),
-        note="Trusted: engines/refmodels/worktree.py (model vs git disagreement is a harness error); two known findings (mode/type-only changes invisible to status; stage/unstage D/F conflicts).",
+        round2='Round 4: when git status on the index dulwich wrote disagrees with the model, git is asked again with the same entries and no stat data; if that agrees with the model the stat data dulwich wrote are the violation (a same-size edit hidden from git and dulwich alike), otherwise it is a harness error as before.',
+        note="Trusted: engines/refmodels/worktree.py (model vs git disagreement on a stat-free copy of the index is a harness error); two known findings (mode/type-only changes invisible to status; stage/unstage D/F conflicts).",
     ),
     "C19": dict(
         engine="E4 enum", category="exploration",
